@@ -303,12 +303,12 @@ func typeKey(t types.Type) string {
 type MemKind int
 
 const (
-	MemCell MemKind = iota // pointer to non-struct value: C_<T> : Array Int sort(T)
-	MemField               // field of struct behind pointer: F_<k>_<path>
-	MemElem                // element of backing array: E_<T> : Array Int (Array bv64 sort(T))
-	MemMapDom              // MD_<K>_<V> : Array Int (Array K Bool)
-	MemMapVal              // MV_<K>_<V> : Array Int (Array K V)
-	MemGhost               // plain ghost variable
+	MemCell   MemKind = iota // pointer to non-struct value: C_<T> : Array Int sort(T)
+	MemField                 // field of struct behind pointer: F_<k>_<path>
+	MemElem                  // element of backing array: E_<T> : Array Int (Array bv64 sort(T))
+	MemMapDom                // MD_<K>_<V> : Array Int (Array K Bool)
+	MemMapVal                // MV_<K>_<V> : Array Int (Array K V)
+	MemGhost                 // plain ghost variable
 )
 
 type MemRef struct {
@@ -342,11 +342,11 @@ func (r *Registry) mapMems(m *types.Map) (MemRef, MemRef) {
 
 // State is the symbolic machine state at a program point.
 type State struct {
-	mem map[string]string // memory name -> current SMT term
-	W   string            // allocation watermark (Int term)
-	A   string            // ghost allocation counter in bytes (Int term) for C06
+	mem   map[string]string   // memory name -> current SMT term
+	W     string              // allocation watermark (Int term)
+	A     string              // ghost allocation counter in bytes (Int term) for C06
 	inner map[string]innerRec // memory name -> last whole-inner-array write (read-over-write shortcut)
-	H   string            // ghost heap version: bumped by every write except to the types listed in `config heapver_ignore`
+	H     string              // ghost heap version: bumped by every write except to the types listed in `config heapver_ignore`
 }
 
 // innerRec remembers that memory `mem` (as term memTerm) was last produced by writing the
